@@ -15,6 +15,7 @@ import (
 	"time"
 
 	"github.com/bluenviron/gohlslib/v2/pkg/codecs"
+	"github.com/bluenviron/mediacommon/v2/pkg/codecs/h264"
 	"github.com/bluenviron/mediacommon/v2/pkg/codecs/mpeg4audio"
 )
 
@@ -35,6 +36,89 @@ var h264Params = []paramSet{
 	// same stream with another level_idc (3.1 -> different SPS bytes, same geometry)
 	{sps: []byte{0x67, 0x42, 0xc0, 0x1f, 0xd9, 0x00, 0x78, 0x02, 0x27, 0xe5, 0x84, 0x00, 0x00, 0x03, 0x00, 0x04, 0x00, 0x00, 0x03, 0x00, 0xf0, 0x3c, 0x60, 0xc9, 0x20},
 		pps: []byte{0x68, 0x02}, width: 1920, height: 1080, fps: "30.000", codecStr: "avc1.42c01f"},
+}
+
+// High profile, pic_order_cnt_type 0 (log2_max_frame_num 4, log2_max_pic_order_cnt_lsb 6): frames may be reordered and
+// the muxer derives the decode time from the picture order count of each slice (kind "h264b").
+var h264bParams = []paramSet{
+	{sps: []byte{0x67, 0x64, 0x00, 0x28, 0xac, 0xd9, 0x40, 0x78, 0x02, 0x27, 0xe5, 0x84, 0x00, 0x00, 0x03, 0x00, 0x04, 0x00, 0x00, 0x03, 0x00, 0xf0, 0x3c, 0x60, 0xc6, 0x58},
+		pps: []byte{0x68, 0xeb, 0xe3, 0xcb, 0x22, 0xc0}, width: 1920, height: 1080, fps: "30.000", codecStr: "avc1.640028"},
+	{sps: []byte{0x67, 0x64, 0x00, 0x1f, 0xac, 0xd9, 0x40, 0x78, 0x02, 0x27, 0xe5, 0x84, 0x00, 0x00, 0x03, 0x00, 0x04, 0x00, 0x00, 0x03, 0x00, 0xf0, 0x3c, 0x60, 0xc6, 0x58},
+		pps: []byte{0x68, 0xeb, 0xe3, 0xcb, 0x22, 0xc1}, width: 1920, height: 1080, fps: "30.000", codecStr: "avc1.64001f"},
+}
+
+const (
+	h264bLog2FrameNum = 4
+	h264bLog2POC      = 6
+)
+
+func init() {
+	for _, p := range h264bParams {
+		var sp h264.SPS
+		if err := sp.Unmarshal(p.sps); err != nil || sp.PicOrderCntType != 0 || !sp.FrameMbsOnlyFlag ||
+			sp.Log2MaxFrameNumMinus4+4 != h264bLog2FrameNum || sp.Log2MaxPicOrderCntLsbMinus4+4 != h264bLog2POC {
+			panic(fmt.Sprintf("h264bParams: unexpected SPS contents: %v %+v", err, sp))
+		}
+	}
+}
+
+func isH264(kind string) bool { return kind == "h264" || kind == "h264b" }
+
+func h264ParamsOf(kind string) []paramSet {
+	if kind == "h264b" {
+		return h264bParams
+	}
+	return h264Params
+}
+
+type bitWriter struct {
+	b []byte
+	n int
+}
+
+func (w *bitWriter) bit(v uint32) {
+	if w.n%8 == 0 {
+		w.b = append(w.b, 0)
+	}
+	if v&1 != 0 {
+		w.b[len(w.b)-1] |= 1 << (7 - uint(w.n%8))
+	}
+	w.n++
+}
+
+func (w *bitWriter) bits(v uint32, n int) {
+	for i := n - 1; i >= 0; i-- {
+		w.bit(v >> uint(i))
+	}
+}
+
+func (w *bitWriter) ue(v uint32) {
+	v++
+	n := 0
+	for x := v; x > 1; x >>= 1 {
+		n++
+	}
+	w.bits(0, n)
+	w.bits(v, n+1)
+}
+
+// h264bSlice builds a slice NALU whose header carries pic_order_cnt_lsb = poc (the rest of the NALU is the payload tail).
+func h264bSlice(idr bool, poc uint32, tail []byte) []byte {
+	w := &bitWriter{}
+	w.ue(0) // first_mb_in_slice
+	w.ue(7) // slice_type
+	w.ue(0) // pic_parameter_set_id
+	w.bits(0, h264bLog2FrameNum)
+	if idr {
+		w.ue(0) // idr_pic_id
+	}
+	w.bits(poc&(1<<h264bLog2POC-1), h264bLog2POC)
+	w.bit(1)
+	hdr := byte(0x41)
+	if idr {
+		hdr = 0x65
+	}
+	return append(append([]byte{hdr}, w.b...), tail...)
 }
 
 var h265Params = []paramSet{
@@ -67,7 +151,7 @@ type trackSpec struct {
 
 func (t trackSpec) video() bool {
 	switch t.Kind {
-	case "h264", "h265", "vp9", "av1":
+	case "h264", "h264b", "h265", "vp9", "av1":
 		return true
 	}
 	return false
@@ -94,6 +178,30 @@ type muxCfg struct {
 	Disk      bool        `json:"disk,omitempty"`
 	MaxSize   uint64      `json:"max_size,omitempty"`
 	OpusTicks int         `json:"opus_ticks,omitempty"` // Opus packet duration in 48 kHz ticks (default 960 = 20 ms)
+	OpusMix   bool        `json:"opus_mix,omitempty"`   // packet k of one WriteOpus call lasts 20, 10, 40 ms (k mod 3)
+}
+
+// opusDur is the duration in 48 kHz ticks of packet k of one WriteOpus call.
+func (c muxCfg) opusDur(k int) int64 {
+	if c.OpusMix {
+		return [3]int64{960, 480, 1920}[k%3]
+	}
+	if c.OpusTicks != 0 {
+		return int64(c.OpusTicks)
+	}
+	return 960
+}
+
+// audioSpan is the duration in clock ticks of the first n access units of one audio write on track t.
+func (c muxCfg) audioSpan(t trackSpec, n int) int64 {
+	if t.Kind != "opus" {
+		return int64(n) * 1024
+	}
+	var d int64
+	for k := 0; k < n; k++ {
+		d += c.opusDur(k)
+	}
+	return d
 }
 
 func (c muxCfg) String() string {
@@ -115,6 +223,9 @@ func (c muxCfg) String() string {
 	s := fmt.Sprintf("%s[%s] n=%d S=%dms P=%dms %s", c.Variant, strings.Join(ts, "+"), c.SegCount, c.SegMinMS, c.PartMS, d)
 	if c.MaxSize != 0 {
 		s += fmt.Sprintf(" max=%d", c.MaxSize)
+	}
+	if c.OpusMix {
+		s += " opus-mix"
 	}
 	return s
 }
@@ -144,6 +255,8 @@ func newTrack(t trackSpec) *Track {
 	switch t.Kind {
 	case "h264":
 		tr.Codec = &codecs.H264{SPS: bytes.Clone(h264Params[0].sps), PPS: bytes.Clone(h264Params[0].pps)}
+	case "h264b":
+		tr.Codec = &codecs.H264{SPS: bytes.Clone(h264bParams[0].sps), PPS: bytes.Clone(h264bParams[0].pps)}
 	case "h265":
 		tr.Codec = &codecs.H265{VPS: bytes.Clone(h265Params[0].vps), SPS: bytes.Clone(h265Params[0].sps), PPS: bytes.Clone(h265Params[0].pps)}
 	case "av1":
@@ -199,6 +312,7 @@ type wunit struct {
 	RA     bool  `json:"ra,omitempty"`   // video: random access unit
 	Params int   `json:"p,omitempty"`    // video: 0 none inline, 1 current parameter set inline, 2 switch to the other parameter set (inline)
 	NAU    int   `json:"n,omitempty"`    // audio: access units / packets in this write (default 1)
+	POC    int   `json:"poc,omitempty"`  // h264b: picture order count of the frame; DTS is then the *presentation* time passed to Write
 	Seq    int   `json:"seq"`            // unique id, encoded in the payload
 	Size   int   `json:"size,omitempty"` // extra payload bytes
 }
@@ -227,6 +341,11 @@ func (mi *muxInst) videoData(u wunit) [][]byte {
 	p := mi.vparam
 	var au [][]byte
 	switch kind {
+	case "h264b":
+		if u.Params != 0 {
+			au = append(au, h264bParams[p].sps, h264bParams[p].pps)
+		}
+		au = append(au, h264bSlice(u.RA, uint32(u.POC), append([]byte{0xff}, payloadTail(u, 0)...)))
 	case "h264":
 		if u.Params != 0 {
 			au = append(au, h264Params[p].sps, h264Params[p].pps)
@@ -270,7 +389,7 @@ func (mi *muxInst) audioData(u wunit) [][]byte {
 	for k := 0; k < n; k++ {
 		if mi.cfg.Tracks[u.Track].Kind == "opus" {
 			// TOC: one frame of the configured duration (default CELT FB 20 ms)
-			out = append(out, append([]byte{opusTOC(mi.cfg.OpusTicks)}, payloadTail(u, k)...))
+			out = append(out, append([]byte{opusTOC(int(mi.cfg.opusDur(k)))}, payloadTail(u, k)...))
 		} else {
 			out = append(out, append([]byte{0x21}, payloadTail(u, k)...))
 		}
@@ -283,7 +402,7 @@ func (mi *muxInst) write(u wunit) error {
 	tr := mi.tracks[u.Track]
 	ntp := mi.ntpOf(u)
 	switch mi.cfg.Tracks[u.Track].Kind {
-	case "h264":
+	case "h264", "h264b":
 		return mi.m.WriteH264(tr, ntp, u.DTS, mi.videoData(u))
 	case "h265":
 		return mi.m.WriteH265(tr, ntp, u.DTS, mi.videoData(u))
